@@ -1,4 +1,6 @@
-/* C11/C19: KSI_DataHasher_close hands out a completely (re-)initialised hash object. */
+/* C11/C19: KSI_DataHasher_close hands out a completely (re-)initialised hash object, new or recycled.
+ * Plain mode (dfcc does not get through propositional reduction on this one): the function is loop-free, all inputs
+ * symbolic; the contract is stated as assertions after the single call. */
 #include "env/common.h"
 #include "env/stubs_base.h"
 #include "hash.h"
@@ -7,12 +9,11 @@
 struct KSI_CTX_st *g_ctx_p; struct KSI_DataHash_st *g_h_p; KSI_DataHasher *g_hsr_p;
 _Bool g_close_cb_called; KSI_DataHash *g_close_cb_obj; size_t g_close_cb_len;
 #include "env/ghost_recycle.h"
-#include "contracts/hash_recycle.h"
 #include "hash.c"
 
 static int stub_closeExisting(KSI_DataHasher *h, KSI_DataHash *out) {
 	__CPROVER_assert(h == g_hsr_p && out != NULL, "provider call-back gets the hasher and the object to fill");
-	__CPROVER_assert(out->ref == 1 && out->ctx == g_ctx_p, "object is initialised before the provider fills it");
+	__CPROVER_assert(out->ref == 1 && out->ctx == g_ctx_p, "object is initialised (count 1, hasher's context) before the provider fills it");
 	g_close_cb_called = 1; g_close_cb_obj = out;
 	if (nondet_bool()) return KSI_UNKNOWN_ERROR;
 	out->imprint[0] = nondet_uchar();
@@ -22,17 +23,31 @@ static int stub_closeExisting(KSI_DataHasher *h, KSI_DataHash *out) {
 }
 
 void harness(void) {
-	struct KSI_CTX_st ctx; struct KSI_DataHash_list_st bin; struct KSI_DataHasher_st hsr; KSI_DataHash **out = (KSI_DataHash **)nondet_ptr(); int res;
+	struct KSI_CTX_st ctx; struct KSI_DataHash_list_st bin; struct KSI_DataHasher_st hsr; KSI_DataHash *outv = NULL; int res; size_t bin0; _Bool open0;
 	memset(&bin, 0, sizeof(bin));
 	bin.length = bin_length; bin.append = bin_append; bin.removeElement = bin_remove;
 	ctx.dataHashRecycle = nondet_bool() ? &bin : NULL;
 	ctx.options[KSI_OPT_DATAHASH_CACHE_SIZE] = nondet_size();
 	g_ctx_p = &ctx; g_hsr_p = &hsr; g_h_p = NULL;
 	hsr.ctx = &ctx; hsr.isOpen = nondet_bool(); hsr.closeExisting = nondet_bool() ? stub_closeExisting : NULL;
-	g_bin_len = nondet_size(); g_bin_appends = 0; g_bin_removes = 0; g_bin_appended = NULL; g_bin_append_may_fail = 1; g_close_cb_called = 0;
+	g_bin_len = nondet_size(); __CPROVER_assume(g_bin_len < 1000000);
+	g_bin_appends = 0; g_bin_removes = 0; g_bin_appended = NULL; g_bin_append_may_fail = 1; g_close_cb_called = 0;
 	if (ctx.dataHashRecycle == NULL) g_bin_len = 0;
-	g_recycled.ref = 0;
-	res = KSI_DataHasher_close(&hsr, out);
-	if (res == KSI_OK) REACH("closed"); else REACH("error");
-	if (res == KSI_OK && *out == &g_recycled) REACH("recycled object handed out");
+	g_recycled_p = malloc(sizeof(struct KSI_DataHash_st)); __CPROVER_assume(g_recycled_p != NULL);
+	g_recycled_p->ref = 0; g_recycled_p->ctx = (KSI_CTX *)nondet_ptr(); g_recycled_p->imprint_length = nondet_size();   /* stale contents */
+	bin0 = g_bin_len; open0 = hsr.isOpen;
+	res = KSI_DataHasher_close(&hsr, &outv);
+	if (res == KSI_OK) {
+		__CPROVER_assert(outv != NULL && outv->ref == 1 && outv->ctx == &ctx, "handed out object: reference count 1, hasher's context");
+		__CPROVER_assert(g_close_cb_called && g_close_cb_obj == outv && outv->imprint_length == g_close_cb_len, "imprint and length are those the provider wrote into this object");
+		__CPROVER_assert(open0 && !hsr.isOpen, "only an open hasher can be closed; it is closed afterwards");
+		__CPROVER_assert(IMPLIES(bin0 > 0, outv == g_recycled_p && g_bin_removes == 1 && g_bin_appends == 0), "non-empty bin: the recycled object is used and leaves the bin");
+		__CPROVER_assert(IMPLIES(bin0 == 0, outv != g_recycled_p && g_bin_removes == 0 && g_bin_appends == 0), "empty bin: a new object");
+		REACH("closed");
+		if (outv == g_recycled_p) REACH("recycled object handed out");
+	} else {
+		__CPROVER_assert(outv == NULL, "failure: nothing handed out");
+		__CPROVER_assert(g_bin_removes == 0 || (g_bin_appends == 1 && g_bin_appended == g_recycled_p) || g_bin_appends == 0, "failure: a recycled object taken out goes back to the bin once or is released");
+		REACH("error");
+	}
 }
